@@ -209,14 +209,27 @@ def run(scn, st):
                     if e not in want_all:
                         raise core.Violation("link-invented", "copy %s has %r which the original did not have" % (c, e),
                                              dist=d)
-            # edge counts divided
+            # edge counts divided (edges equal up to their count tags are matched as multisets)
+            groups_got, groups_want = {}, {}
             for f in E1:
                 if f[1] == c or f[3] == c:
                     npos = 5 if f[0] == "L" else 6
-                    orig = [x for x in mine if edge_key(x, {seg: c}) == edge_key(f)]
-                    if orig and counts(f, npos) != dict((kk, v // k) for kk, v in counts(orig[0], npos).items()):
-                        raise core.Violation("edge-counts", "edge %r: counts %r, original %r / %d" %
-                                             ("\t".join(f), counts(f, npos), counts(orig[0], npos), k), what="edge")
+                    groups_got.setdefault(edge_key(f), []).append(sorted(counts(f, npos).items()))
+            for x in mine:
+                npos = 5 if x[0] == "L" else 6
+                groups_want.setdefault(edge_key(x, {seg: c}), []).append(
+                    sorted((kk, v // k) for kk, v in counts(x, npos).items()))
+            for key, got_counts in groups_got.items():
+                want_counts = groups_want.get(key)
+                if want_counts is None:
+                    continue
+                if d in (None, "off"):
+                    bad_counts = sorted(got_counts) != sorted(want_counts)
+                else:
+                    bad_counts = any(gc not in want_counts for gc in got_counts)
+                if bad_counts:
+                    raise core.Violation("edge-counts", "edges %r of copy %s: counts %r, originals divided by %d: %r" %
+                                         (key, c, got_counts, k, want_counts), what="edge")
         if d not in (None, "off"):
             # every former neighbour end stays linked to at least one copy; containments and the links of
             # the other end are full copies
